@@ -145,7 +145,7 @@ func VerifC07_MultipartRequestRegion() {
 // vendor messages by experimenter type, incl. bundle-add wrapping a second frame
 func VerifC07_VendorRegion() {
 	et := []uint32{Type_SetControllerId, Type_TlvTableMod, Type_TlvTableReply, Type_BundleCtrl, Type_BundleAdd, Type_TlvTableRequest, 0xdeadbeef}[vr.Choice("exptype", 7)]
-	r := vr.IntRange("region", 0, c07pick(24, 40))
+	r := vr.IntRange("region", 0, c07pick(34, 48)) // bundle-add: 8 fixed + an 8-byte embedded frame + a 12-byte property, and some more
 	prefix := make([]byte, 8)
 	copy(prefix[0:4], vr.Bytes("vendor", 4))
 	prefix[4], prefix[5], prefix[6], prefix[7] = uint8(et>>24), uint8(et>>16), uint8(et>>8), uint8(et)
